@@ -214,7 +214,19 @@ pub enum Op {
     Select { a: usize, b: usize, choice: bool, form: u8 },
     Convert { src: usize, kind: Conv },
     Random { carrier: Carrier, wr: Wr, infallible: bool, bits: u32, tape: TapePlan },
-    Deser { carrier: Carrier, wr: Wr, format: DeFormat, words: Vec<u64>, faults: Vec<Fault>, style: Delivery, fail_at: Option<usize> },
+    Deser {
+        carrier: Carrier,
+        wr: Wr,
+        format: DeFormat,
+        words: Vec<u64>,
+        faults: Vec<Fault>,
+        style: Delivery,
+        fail_at: Option<usize>,
+        /// sim formats only: `Deserialize::deserialize_in_place` into an existing valid wrapper (value one); whatever
+        /// the target holds afterwards — success or error — is a wrapper the caller still owns
+        #[serde(default)]
+        in_place: bool,
+    },
     Consume { src: usize, cons: Cons, operand: Vec<u64> },
 }
 
@@ -868,7 +880,7 @@ fn exec(plan: &Plan, out: &mut RunOut) {
                     _ => {}
                 }
             }
-            Op::Deser { carrier, wr, format, words, faults, style, fail_at } => {
+            Op::Deser { carrier, wr, format, words, faults, style, fail_at, in_place } => {
                 let n = limbs_of(*carrier).max(1);
                 let mut le: Vec<u8> = Vec::new();
                 for w in words.iter().take(n) {
@@ -915,22 +927,34 @@ fn exec(plan: &Plan, out: &mut RunOut) {
                             }
                         }
                         macro_rules! de {
-                            ($ty:ty, $wrap:expr) => {{
+                            ($ty:ty, $wrap:expr, $one:expr) => {{
                                 let toks = toks.clone();
-                                guard(move || {
-                                    let mut d = SimDe::new(&toks, human, *style, *style, *fail_at);
-                                    <$ty>::deserialize(&mut d).ok().map($wrap)
-                                })
+                                if *in_place {
+                                    guard(move || {
+                                        let mut d = SimDe::new(&toks, human, *style, *style, *fail_at);
+                                        let mut place: $ty = $one;
+                                        let _ = <$ty as Deserialize>::deserialize_in_place(&mut d, &mut place);
+                                        Some($wrap(place))
+                                    })
+                                } else {
+                                    guard(move || {
+                                        let mut d = SimDe::new(&toks, human, *style, *style, *fail_at);
+                                        <$ty>::deserialize(&mut d).ok().map($wrap)
+                                    })
+                                }
                             }};
                         }
+                        if *in_place {
+                            out.count("probe:deserialize-in-place");
+                        }
                         match (carrier, wr) {
-                            (Carrier::Limb, Wr::Nz) => de!(NonZero<Limb>, W::NzLimb),
-                            (Carrier::U1, Wr::Nz) => de!(NonZero<Uint<1>>, W::NzU1),
-                            (Carrier::U2, Wr::Nz) => de!(NonZero<Uint<2>>, W::NzU2),
-                            (Carrier::U4, Wr::Nz) => de!(NonZero<Uint<4>>, W::NzU4),
-                            (Carrier::U1, Wr::Odd) => de!(Odd<Uint<1>>, W::OddU1),
-                            (Carrier::U2, Wr::Odd) => de!(Odd<Uint<2>>, W::OddU2),
-                            (Carrier::U4, Wr::Odd) => de!(Odd<Uint<4>>, W::OddU4),
+                            (Carrier::Limb, Wr::Nz) => de!(NonZero<Limb>, W::NzLimb, NonZero::<Limb>::ONE),
+                            (Carrier::U1, Wr::Nz) => de!(NonZero<Uint<1>>, W::NzU1, NonZero::<Uint<1>>::ONE),
+                            (Carrier::U2, Wr::Nz) => de!(NonZero<Uint<2>>, W::NzU2, NonZero::<Uint<2>>::ONE),
+                            (Carrier::U4, Wr::Nz) => de!(NonZero<Uint<4>>, W::NzU4, NonZero::<Uint<4>>::ONE),
+                            (Carrier::U1, Wr::Odd) => de!(Odd<Uint<1>>, W::OddU1, Odd::new(Uint::<1>::ONE).unwrap()),
+                            (Carrier::U2, Wr::Odd) => de!(Odd<Uint<2>>, W::OddU2, Odd::new(Uint::<2>::ONE).unwrap()),
+                            (Carrier::U4, Wr::Odd) => de!(Odd<Uint<4>>, W::OddU4, Odd::new(Uint::<4>::ONE).unwrap()),
                             _ => continue,
                         }
                     }
@@ -1010,7 +1034,8 @@ fn exec(plan: &Plan, out: &mut RunOut) {
                 out.state(format!("deser|{:?}|{:?}|{:?}|raw-{}|{}|{}", carrier, wr, format, if raw_valid { "valid" } else { "invalid" }, if fired > 0 { "faulted" } else { "clean" }, tag));
                 match r {
                     Guarded::Done(Some(w)) => {
-                        if fired == 0 && fail_at.is_none() && !raw_valid {
+                        let sim_in_place = *in_place && matches!(format, DeFormat::SimBin | DeFormat::SimHuman);
+                        if fired == 0 && fail_at.is_none() && !raw_valid && !sim_in_place {
                             // (also caught by the invariant below; reported with the producer's own check id)
                             out.viol(
                                 "C12/accepted-invalid",
@@ -1019,7 +1044,7 @@ fn exec(plan: &Plan, out: &mut RunOut) {
                                 replay(),
                             );
                         }
-                        pool.push(Member { w, born: ei, producer: format!("{:?}::{:?}::Deserialize::{:?}", carrier, wr, format) });
+                        pool.push(Member { w, born: ei, producer: format!("{:?}::{:?}::Deserialize{}::{:?}", carrier, wr, if sim_in_place { "(in place)" } else { "" }, format) });
                     }
                     Guarded::Done(None) => {
                         if fired == 0 && fail_at.is_none() && raw_valid {
@@ -1357,6 +1382,7 @@ impl TypedScenario for Pool {
                         faults,
                         style: *r.pick(&[Delivery::Transient, Delivery::Borrowed, Delivery::Owned]),
                         fail_at: if r.chance(1, 10) { Some(r.below(2) as usize) } else { None },
+                        in_place: r.chance(1, 4),
                     }
                 }
                 _ => Op::Consume {
@@ -1398,11 +1424,11 @@ impl TypedScenario for Pool {
                         }
                     }
                 }
-                Op::Deser { carrier, wr, format, words, faults, style, fail_at } => {
+                Op::Deser { carrier, wr, format, words, faults, style, fail_at, in_place } => {
                     for i in 0..faults.len() {
                         let mut f = faults.clone();
                         f.remove(i);
-                        v.push(Plan { ops: vec![Op::Deser { carrier: *carrier, wr: *wr, format: *format, words: words.clone(), faults: f, style: *style, fail_at: *fail_at }] });
+                        v.push(Plan { ops: vec![Op::Deser { carrier: *carrier, wr: *wr, format: *format, words: words.clone(), faults: f, style: *style, fail_at: *fail_at, in_place: *in_place }] });
                     }
                 }
                 _ => {}
